@@ -42,6 +42,13 @@ UNITS = [
               "reader init / refill / padding past the end, decode 2 booleans: each decoded value equals the coded one",
          assumptions=["buffer growth not exercised: realloc is replaced by an assertion that it is never reached with the "
                       "16-byte initial buffers (holds; growth is U25.3.grow)"]),
+    Unit(uid="U25.4.done_carry", prop="C25", harness=H, entry="h_done", mode="plain", defines=["U25_RT", "DONE_N=5"],
+         functions=["svt_od_ec_enc_done"], unwind=20, min_obligations=100, cover_functions=[], timeout=900, mem_gb=16,
+         backend="cadical", native=False, kind="bounded", bound="pre-carry buffer of 0..5 stored entries (+ up to 3 final ones)",
+         what="svt_od_ec_enc_done from ANY pre-carry buffer content (each entry < 512: byte + pending carry) and any low / "
+              "cnt in the writer's invariant: the returned bytes, read as one big-endian number, equal the position-weighted "
+              "sum of the pre-carry entries modulo 256^nbytes - carry propagation through 0xFF bytes included",
+         assumptions=["buffer growth not exercised (asserted unreachable)", "pre-carry entries < 512 (what the renormalisation stores)"]),
     Unit(uid="U25.4.roundtrip_cdf", prop="C25", harness=H, entry="h_roundtrip_cdf", mode="plain", defines=["U25_RT", "RT_K=1", "RT_N=16"],
          functions=["svt_od_ec_encode_cdf_q15", "svt_od_ec_encode_bool_q15", "od_ec_enc_normalize", "svt_od_ec_enc_done",
                     "od_ec_dec_init", "od_ec_dec_refill", "od_ec_decode_cdf_q15", "od_ec_decode_bool_q15"],
